@@ -1649,12 +1649,23 @@ class Path:
             self.gcache[key] = {id(n): i for i, n in enumerate(loops)}
         return (self.qual_of(fn), self.gcache[key].get(id(st)))
 
+    def loop_spec_for(self, st):
+        """The contract's specification of a loop: by (function, ordinal of the loop in the function), else -- robust to loops added, removed or moved into
+        a helper -- by what the loop iterates over / tests: (function or "*", "iter:<source of the iterable>") / (.., "test:<source of the condition>")."""
+        key = self.loop_key(st)
+        spec = self.loop_specs.get(key)
+        if spec is None and self.loop_specs:
+            text = ("iter:" + ast.unparse(st.iter)) if isinstance(st, ast.For) else ("test:" + ast.unparse(st.test))
+            qual = key[0] if key else None
+            spec = self.loop_specs.get((qual, text)) or self.loop_specs.get(("*", text))
+        return spec
+
     def x_For(self, st):
         from . import loops
         it = self.eval(st.iter)
         if isinstance(it, SUnion):
             it = self.choose(it)
-        spec = self.loop_specs.get(self.loop_key(st))
+        spec = self.loop_spec_for(st)
         seq = self.to_seq(it)
         from . import loops as _loops
         if isinstance(seq, _loops.SCat):
@@ -1677,7 +1688,7 @@ class Path:
 
     def x_While(self, st):
         from . import loops
-        spec = self.loop_specs.get(self.loop_key(st))
+        spec = self.loop_spec_for(st)
         if spec is None:
             # concrete unrolling while the condition is decided without forking; else need a spec
             n = 0
